@@ -462,6 +462,49 @@ def initial_state_rule(ck, F, rule="R16.8"):
         ck.require(not bad, rule, f"fresh:{role}", f"a fresh {role} must hold no gates, commitments, constraints, callbacks or open gate; found {bad}", FX.short(F.fn(path)["sp"]))
 
 
+def wrapper_challenge_rule(ck, F, rule="R16.6"):
+    """`challenge_scalar(label)` of each randomizing wrapper is exactly one challenge squeezed under that label from the inner
+    system's transcript -- on every call, unconditionally, and it returns that challenge (no caching, no other source).  The
+    callback summary only probes this method; this rule is its fail-closed counterpart (seeded change C06j: challenges cached
+    by label made the probe unanalysable, which was swallowed)."""
+    from ..alg import Bytes, Ref
+
+    for role, wty, inner_f in (("prover", "r1cs::prover::RandomizingProver", "prover"), ("verifier", "r1cs::verifier::RandomizingVerifier", "verifier")):
+        cands = [p_ for imp in F.items["impls"] if imp["self_ty"].startswith(wty + "<") and (imp["trait"] or "").split("<")[0].endswith("RandomizedConstraintSystem") for p_ in imp["items"] if p_.endswith("::challenge_scalar")]
+        if len(cands) != 1:
+            ck.fail(rule, f"wrapper-challenge:{role}", f"challenge_scalar of {wty} not found (candidates {cands})", kind="anchor-missing")
+            continue
+        path = cands[0]
+        ck.fn(path)
+        I = H.new_interp(F)
+        st = state(role, None)
+        adt = F.adts.get(wty)
+        fields = {}
+        for f_ in (adt["variants"][0]["fields"] if adt else []):
+            fields[f_["name"]] = st if f_["name"] == inner_f else Opaque("wrapper-state:" + f_["name"])
+        if inner_f not in fields:
+            ck.fail(rule, f"wrapper-challenge:{role}", f"{wty} has no field `{inner_f}`", kind="anchor-missing")
+            continue
+        extra = sorted(k_ for k_ in fields if k_ != inner_f)
+        w = Struct(wty, fields)
+        try:
+            try:
+                ret = I.call_fn(path, [w, Bytes([("lit", b"probe")])])
+            except ReturnSignal as r_:
+                ret = r_.val
+        except Unanalysable as u:
+            ck.fail(rule, f"wrapper-challenge:{role}", f"unanalysable: {u.msg}" + (f" (the wrapper carries state of its own: {extra})" if extra else ""), u.where, kind="unanalysable")
+            continue
+        flat = AN_flat(I.trace.items)
+        ops = [it[1] for it in flat if it[0] == "op"]
+        cond = [it for it in flat if it[0] in ("alt", "guard", "star")]
+        main_tr = I.deref(st.fields["transcript"])
+        ok = len(ops) == 1 and ops[0]["kind"] == "challenge_bytes" and ops[0]["label"] == b"probe" and ops[0]["tr"] is main_tr and not cond
+        rd = I.deref(ret)
+        ok = ok and isinstance(rd, Sc) and len(I.draw_log) == 1 and rd.e == I.draw_log[0]["atom"]
+        ck.require(ok, rule, f"wrapper-challenge:{role}", f"challenge_scalar(label) of the randomizing wrapper must squeeze exactly one challenge under `label` from the inner system's transcript, on every call, and return it; operations {[(o['kind'], o['label']) for o in ops]}, conditional paths {len(cond)}, returns {rd!r}", FX.short(F.fn(path)["sp"]))
+
+
 def AN_flat(items):
     out = []
     for it in items:
@@ -588,6 +631,7 @@ def body(ck, F, cfg):
     ck.require(selfs == ["r1cs::prover::RandomizingProver", "r1cs::verifier::RandomizingVerifier"], "R16.6", "challenge-only-in-randomized-phase", f"challenge_scalar must be available on the randomizing wrappers only; impls for {selfs}")
     commit_rules(ck, F)
     initial_state_rule(ck, F)
+    wrapper_challenge_rule(ck, F)
     ck.floor("method transitions", len([o for o in ck.obligations if o[0] == "R16.1"]), 20)
     ck.floor("delegations", n_del, 12)
 
